@@ -2,7 +2,7 @@ KERNELS = {'C16_matmul': dict(src='kernels/C16_matmul.cpp', flags=['-DNDEBUG', '
            'C16_matmulv2': dict(src='kernels/C16_matmul.cpp', flags=['-DNDEBUG', '-DV2ONLY'])}
 for _r in ('outer', 'vecdot', 'trace', 'dot', 'inner', 'kron', 'tensordot'):
     KERNELS['C16_' + _r] = dict(src='kernels/C16_other.cpp', flags=['-DNDEBUG', '-DR_' + _r.upper()])
-US = ['in_data8.0:18', 'k_fill_u8.0:18']
+US = ['in_data8.0:18', 'k_fill_u8.0:18', 'k_fill_u8.1:18']
 
 
 def _sh(a, b, **kw):
